@@ -611,6 +611,22 @@ def check_decay_table(run) -> None:
 
 
 # ------------------------------------------------------------------------------------------ driver
+def guarded(run, engine: str, case: Any, fn: Any) -> None:
+    """An exception that escapes from library code (innermost frame under srctools/) refutes the property;
+    one raised by the harness itself stays a harness error (-> inconclusive)."""
+    import traceback
+    try:
+        fn()
+    except Exception as exc:
+        tb = traceback.extract_tb(exc.__traceback__)
+        inner = tb[-1].filename if tb else ''
+        if (os.sep + 'srctools' + os.sep) not in inner:
+            raise
+        run.violation(f'{engine}: library raised {type(exc).__name__}: {exc}',
+                      witness=''.join(traceback.format_exception(type(exc), exc, exc.__traceback__))[-1800:],
+                      case=case, engine=engine, key='library-raises')
+
+
 def make_probe() -> ReachProbe:
     from srctools import fgd as F
     from srctools import _engine_db as E
@@ -625,6 +641,12 @@ def make_probe() -> ReachProbe:
         'EngineDB.get_ent': (E, 'EngineDB.get_ent'), 'EngineDB._parse_block': (E, 'EngineDB._parse_block'),
         'EntityDef.engine_def': (F, 'EntityDef.engine_def'), 'FGD.engine_dbase': (F, 'FGD.engine_dbase'),
     })
+
+
+JOB_ENGINES = [('dbase', {'custom_syntax': True, 'label_spawnflags': True}), ('binary-dbase', {}),
+               ('dbase', {'custom_syntax': False, 'label_spawnflags': True}), ('lazy-dbase', {}),
+               ('dbase', {'custom_syntax': True, 'label_spawnflags': False}),
+               ('dbase', {'custom_syntax': False, 'label_spawnflags': False})]
 
 
 def main(run, shard=(0, 1)) -> None:
@@ -645,18 +667,18 @@ def main(run, shard=(0, 1)) -> None:
     ]
     for j, job in enumerate(jobs):
         if mine(j, shard):
-            job()
-    fixed_cases(run, shard)
+            guarded(run, 'dbase', {'engine': JOB_ENGINES[j][0], **JOB_ENGINES[j][1]}, job)
+    guarded(run, 'fixed', {'engine': 'fixed'}, lambda: fixed_cases(run, shard))
     for i in range(N_LAZY[tier]):
         if mine(i, shard):
-            lazy_case(run, i)
+            guarded(run, 'lazy', {'engine': 'lazy', 'index': i}, lambda: lazy_case(run, i))
     for i in range(N_BIN[tier]):
         if mine(i, shard):
-            binary_case(run, i)
-    dbase_per_entity(run, shard, 1 << 30 if thorough else 240)
+            guarded(run, 'binary', {'engine': 'binary', 'index': i}, lambda: binary_case(run, i))
+    guarded(run, 'dbase-ent', {'engine': 'dbase-ent'}, lambda: dbase_per_entity(run, shard, 1 << 30 if thorough else 240))
     for i in range(N_TEXT[tier]):
         if mine(i, shard):
-            text_case(run, i)
+            guarded(run, 'text', {'engine': 'text', 'index': i}, lambda: text_case(run, i))
     probe.report(run)
     # shards run different engines: reach is summed over the shards through counters, then required as a whole
     for label_, cnt in probe.counts.items():
